@@ -727,7 +727,9 @@ Update(gg, r) ==
     [] a \in {"disc", "dly", "stats", "addonly"} -> IF r.r = "skip" THEN gg ELSE OtherPeerLine(gg, r)
     [] a = "kill" -> [gg EXCEPT !.pr = [p \in 0..gg.N-1 |->
                                           IF p = r.p THEN [gg.pr[p] EXCEPT !.alive = FALSE]
-                                          ELSE IF gg.pr[p].dropMark = -1 /\ ~gg.isSpec[p]
+                                          \* (a session that was still synchronising with the victim never starts:
+                                          \*  the handshake has no time-out; C07 speaks of established connections)
+                                          ELSE IF gg.pr[p].dropMark = -1 /\ ~gg.isSpec[p] /\ gg.pr[p].run
                                                THEN [gg.pr[p] EXCEPT !.dropMark = gg.pr[p].cur] ELSE gg.pr[p]]]
     [] a = "forge" -> Bump(gg, "forgedPackets", 1)
     [] a = "mark" -> [gg EXCEPT !.marked = TRUE, !.minProgress = r.min_progress,
